@@ -134,9 +134,16 @@ CfgFill ==
   \cup {Cfg("fill-empty", <<>>, <<>>, <<>>, 0, o) : o \in {<<>>, <<"-v", "X">>, <<"-v", "0">>, <<"-S", "-v", "0">>}}
 
 Configs == CfgCnt \cup CfgStat \cup CfgPct \cup CfgDsl \cup CfgMerge \cup CfgMergeC \cup CfgStep \cup CfgWin \cup CfgTop \cup CfgFrac \cup CfgHist \cup CfgFill
-Cases ==
-  Family(CfgCnt, RUcnt, ExLen, MaxLen) \cup Family(CfgStat, RUstat, ExLen, MaxLen + 1) \cup Family(CfgPct, RUpct, ExLen, 6) \cup Family(CfgDsl, RUdsl, ExLen, 6)
-  \cup Family(CfgMerge, RUmerge, ExLen, ExLen + 1) \cup Family(CfgMergeC, RUmergec, ExLen, ExLen + 1)
-  \cup Family(CfgStep, RUint, ExLen, MaxLen + 1) \cup Family(CfgWin, RUint, ExLen, MaxLen + 1) \cup Family(CfgTop, RUint, ExLen, MaxLen + 1)
-  \cup Family(CfgFrac, RUfrac, ExLen, MaxLen) \cup Family(CfgHist, RUhist, ExLen, MaxLen) \cup Family(CfgFill, RUfill, ExLen, MaxLen)
+Fam(cfgs, ru, ex, mx) == [cfgs |-> cfgs, ru |-> ru, ex |-> ex, mx |-> mx]
+Families ==
+  { Fam(CfgCnt, RUcnt, ExLen, MaxLen), Fam(CfgStat, RUstat, ExLen, MaxLen + 1), Fam(CfgPct, RUpct, ExLen, 6), Fam(CfgDsl, RUdsl, ExLen, 6),
+    Fam(CfgMerge, RUmerge, ExLen, ExLen + 1), Fam(CfgMergeC, RUmergec, ExLen, ExLen + 1),
+    Fam(CfgStep, RUint, ExLen, MaxLen + 1), Fam(CfgWin, RUint, ExLen, MaxLen + 1), Fam(CfgTop, RUint, ExLen, MaxLen + 1),
+    Fam(CfgFrac, RUfrac, ExLen, MaxLen), Fam(CfgHist, RUhist, ExLen, MaxLen), Fam(CfgFill, RUfill, ExLen, MaxLen) }
+Cases == UNION {Family(F.cfgs, F.ru, F.ex, F.mx) : F \in Families}
+\* the same set, in the shape TLC enumerates without building it (VerbsAggregateGen's initial states)
+IsCase(x) ==
+  \E F \in Families : \E c \in F.cfgs :
+    \E s \in StreamsUpTo(F.ru, F.ex) \cup UNION {RandomSubset(Min2(NSample, Cardinality(F.ru) ^ l), [1..l -> F.ru]) : l \in (F.ex + 1)..F.mx} :
+      x = [c |-> c, s |-> s]
 =============================================================================
